@@ -13,14 +13,15 @@ TRUSTED = [
     "CPython dict / WeakKeyDictionary keep insertion order; deleting a key keeps the order of the others (the model uses lists)",
     "CPython refcounting: an agent dies exactly when its model deregisters it and the program holds no reference",
     "itertools.count(1) per model instance (Agent._ids) yields 1,2,3,…",
-    "agent callbacks are scripts (remove self / remove other / create / drop reference); arbitrary Python side effects are not modelled",
+    "agent callbacks are scripts (remove self / remove other / create / drop reference / edit a program-made set / raise); arbitrary Python side effects are not modelled",
 ]
 ASSUMPTIONS = ["the program changes model.agents only by in-place shuffle/sort (the property's 'explicitly reordered in place'); "
                "select(inplace=True)/add/discard on the registry's own sets are outside the quantifier"]
 RULE = ("random histories over 1-3 coexisting models and a 4-class hierarchy (T0<-T1<-T3, T2): constructor and create_agents "
         "(n=0..4; one or two arguments, positional or keyword, each a single object or a list / tuple / ndarray of length n or of another "
         "length), the rejected assignment model.agents = [...], remove (also twice, also of held agents), remove_all_agents, in-place "
-        "shuffle/sort of model.agents and by-type sets, activations whose callbacks remove and create agents in any model; "
+        "shuffle/sort of model.agents and by-type sets, activations whose callbacks remove and create agents in any model, edit program-made "
+        "sets and raise (an activation left by an exception keeps the registry exact); "
         "full registry dump after every op; non-trivial = at least one removal and two creations took effect; distinct = "
         "distinct op-line sequences (sha1)")
 
